@@ -127,6 +127,45 @@ pub fn main() {
             let out = PathBuf::from(&args[6]);
             child_shard(&p, tier, seed, shard, &out);
         }
+        "__fuzzone" => {
+            // vcheck __fuzzone <target> <ID> <input file>: one fuzzer input outside the fuzzer
+            let data = std::fs::read(&args[4]).expect("input");
+            let (target, prop) = (args[2].clone(), args[3].clone());
+            let known = KnownFindings::load();
+            let code = run_on_big_stack(move || {
+                let mut acc = Acc::new();
+                match crate::fuzzing::one_input(&target, &prop, &data, &mut acc) {
+                    CaseResult::Pass => 0,
+                    CaseResult::Fail(v) if known.lookup(&prop, &v.signature).is_some() => 0,
+                    CaseResult::Fail(v) => {
+                        let path = save_found(&prop, &v);
+                        println!("{}", path.display());
+                        1
+                    }
+                }
+            });
+            std::process::exit(code);
+        }
+        "__fuzzcensus" => {
+            // vcheck __fuzzcensus <target> <ID> <corpus dir> <out>: classify the fuzzer's final corpus
+            let (target, prop) = (args[2].clone(), args[3].clone());
+            let dir = PathBuf::from(&args[4]);
+            let out = PathBuf::from(&args[5]);
+            run_on_big_stack(move || {
+                let mut acc = Acc::new();
+                let mut paths: Vec<_> = std::fs::read_dir(&dir)
+                    .map(|rd| rd.filter_map(|e| e.ok()).map(|e| e.path()).collect())
+                    .unwrap_or_default();
+                paths.sort();
+                for f in paths {
+                    if let Ok(data) = std::fs::read(&f) {
+                        let _ = crate::fuzzing::one_input(&target, &prop, &data, &mut acc);
+                    }
+                }
+                acc.samples.truncate(3);
+                std::fs::write(&out, serde_json::to_vec(&acc).unwrap()).expect("write census");
+            });
+        }
         "__replays" => {
             // vcheck __replays <ID> <out>
             let p = props::find(&args[2]).expect("prop");
@@ -287,7 +326,10 @@ fn run_parent(p: &PropDef, tier: Tier, seed: u64) -> i32 {
     }
 
     // ---- search tier -------------------------------------------------------------------------
-    let mut running: Vec<Child> = (0..SHARDS).map(|k| spawn_shard(p, tier, seed, k, 0)).collect();
+    // VCHECK_ONLY_FUZZ=1 (debugging the fuzz stage): no proptest search, no health check, no evidence
+    let only_fuzz = std::env::var("VCHECK_ONLY_FUZZ").is_ok();
+    let mut running: Vec<Child> =
+        if only_fuzz { vec![] } else { (0..SHARDS).map(|k| spawn_shard(p, tier, seed, k, 0)).collect() };
     let mut crashes = 0u32;
     while !running.is_empty() {
         let mut still = vec![];
@@ -356,6 +398,28 @@ fn run_parent(p: &PropDef, tier: Tier, seed: u64) -> i32 {
         }
     }
 
+    // ---- coverage-guided stage (thorough tier, or VCHECK_FUZZ_SECS set) ---------------------------
+    let fuzz_secs: u64 = std::env::var("VCHECK_FUZZ_SECS")
+        .ok()
+        .and_then(|s| s.trim().parse().ok())
+        .unwrap_or(match tier {
+            Tier::Quick => 0,
+            Tier::Thorough => 240,
+        });
+    let mut fuzz_report = json!(null);
+    if fuzz_secs > 0 {
+        let fs = fuzz_stage(p, seed, fuzz_secs, &known);
+        fuzz_report = fs.report;
+        exit_inconclusive.extend(fs.inconclusive);
+        for n in fs.notes {
+            total.note(n);
+        }
+        for _ in 0..fs.crashes_owned_by_c01 {
+            total.excluded("excluded_c01_crash");
+        }
+        violations.extend(fs.violations);
+    }
+
     // ---- triage of what the shards found ------------------------------------------------------
     let mut seen_sigs = std::collections::HashSet::new();
     for v in std::mem::take(&mut total.violations) {
@@ -376,9 +440,15 @@ fn run_parent(p: &PropDef, tier: Tier, seed: u64) -> i32 {
     }
 
     // ---- generator health ----------------------------------------------------------------------
-    let health = (p.health)(&total, tier);
+    let health = if only_fuzz { vec![] } else { (p.health)(&total, tier) };
     for h in &health {
         exit_inconclusive.push(format!("generator health: {h}"));
+    }
+
+    // one line per signature (a committed replay file, the search and the fuzz stage may all meet it)
+    {
+        let mut seen = std::collections::HashSet::new();
+        violations.retain(|(v, _)| seen.insert(v.signature.clone()));
     }
 
     // ---- report --------------------------------------------------------------------------------
@@ -400,7 +470,12 @@ fn run_parent(p: &PropDef, tier: Tier, seed: u64) -> i32 {
         "shards": SHARDS,
         "inconclusive": exit_inconclusive,
         "new_violation_signatures": violations.iter().map(|(v, _)| v.signature.clone()).collect::<Vec<_>>(),
+        "fuzz": fuzz_report,
     });
+    if only_fuzz {
+        println!("(VCHECK_ONLY_FUZZ: evidence not written) {}", fuzz_report);
+        return if violations.is_empty() { 0 } else { 1 };
+    }
     write_evidence(
         &EvidenceSpec {
             prop: p.id,
@@ -474,4 +549,318 @@ fn replay_one(p: &PropDef, path: &PathBuf) -> i32 {
             }
         }
     }
+}
+
+// ------------------------------------------------------------------------------------------------
+// coverage-guided stage: libFuzzer targets of /verif/fuzz (see harness/src/fuzzing.rs)
+// ------------------------------------------------------------------------------------------------
+
+struct FuzzStage {
+    report: Value,
+    inconclusive: Vec<String>,
+    notes: Vec<String>,
+    violations: Vec<(Violation, PathBuf)>,
+    crashes_owned_by_c01: u32,
+}
+
+fn list_files(dir: &PathBuf) -> Vec<PathBuf> {
+    let mut v: Vec<PathBuf> = std::fs::read_dir(dir)
+        .map(|rd| rd.filter_map(|e| e.ok()).map(|e| e.path()).filter(|p| p.is_file()).collect())
+        .unwrap_or_default();
+    v.sort();
+    v
+}
+
+fn fuzz_seed_inputs(p: &PropDef, target: &str, seed: u64, dir: &PathBuf) -> usize {
+    let mut n = 0usize;
+    let mut put = |bytes: &[u8]| {
+        let _ = std::fs::write(dir.join(format!("seed{n:04}")), bytes);
+        n += 1;
+    };
+    let random = |tag: u64, len: usize| -> Vec<u8> {
+        (0..len.div_ceil(8))
+            .flat_map(|i| core::mix(seed, &format!("fuzz-seed/{}/{target}", p.id), tag, i as u64).to_le_bytes())
+            .take(len)
+            .collect()
+    };
+    match target {
+        "fz_c10" | "fz_c01" => {
+            let prefix = if target == "fz_c01" { 32 } else { 0 };
+            for (i, (_, code)) in crate::corpus::corpus().iter().enumerate() {
+                // the head of each real contract and a window from its middle
+                for (j, start) in [0usize, code.len() / 2].into_iter().enumerate() {
+                    let end = (start + 1_500).min(code.len());
+                    let mut b = random((i * 2 + j) as u64, prefix);
+                    b.extend_from_slice(&code[start..end]);
+                    put(&b);
+                }
+            }
+            for (i, len) in [1usize, 2, 33, 40, 64, 200, 1_000].into_iter().enumerate() {
+                put(&random(10_000 + i as u64, len + prefix));
+            }
+        }
+        _ => {
+            let streams = crate::fuzzing::streams(p.id).max(1);
+            for k in 0..streams {
+                for (i, len) in [8usize, 32, 64, 128, 256, 512, 1_024, 2_048, 4_000].into_iter().enumerate() {
+                    for r in 0..3u64 {
+                        let mut b = vec![k as u8];
+                        b.extend(random((k as u64) << 32 | (i as u64) << 8 | r, len));
+                        put(&b);
+                    }
+                }
+            }
+        }
+    }
+    n
+}
+
+fn fuzz_stage(p: &PropDef, seed: u64, secs: u64, known: &KnownFindings) -> FuzzStage {
+    let mut st = FuzzStage {
+        report: json!([]),
+        inconclusive: vec![],
+        notes: vec![],
+        violations: vec![],
+        crashes_owned_by_c01: 0,
+    };
+    let targets = crate::fuzzing::targets_for(p.id);
+    if targets.is_empty() {
+        st.report = json!(match p.id {
+            "C13" => "not fuzzed: one case is thousands of analyses (every stop index), seconds per input under coverage instrumentation",
+            _ => "not fuzzed: complete enumeration, no generated stream to mutate",
+        });
+        return st;
+    }
+    let root = verif_root();
+    let base = root.join("work").join("fuzz").join(p.id);
+    let _ = std::fs::remove_dir_all(&base);
+    let _ = std::fs::create_dir_all(&base);
+    // ---- build (nightly, sanitizer coverage; debug assertions and overflow checks on) ------------
+    let build_log = base.join("build.log");
+    let built = Command::new("cargo")
+        // no AddressSanitizer: the subject has no unsafe memory operations and the oracle, not a memory
+        // error, is what a target waits for; without it the targets run about 3.5x faster
+        .args(["+nightly", "fuzz", "build", "--sanitizer", "none", "--fuzz-dir"])
+        .arg(root.join("fuzz"))
+        .current_dir(root.join("harness"))
+        .env("CARGO_NET_OFFLINE", "true")
+        .stdin(Stdio::null())
+        .stdout(Stdio::null())
+        .stderr(std::fs::File::create(&build_log).map(Stdio::from).unwrap_or_else(|_| Stdio::null()))
+        .status()
+        .map(|s| s.success())
+        .unwrap_or(false);
+    if !built {
+        println!("NOTE: the libFuzzer targets did not build (see {}); coverage-guided stage skipped", build_log.display());
+        st.report = json!({ "status": "fuzz targets did not build; stage skipped" });
+        return st;
+    }
+    let bin_dir = root.join("fuzz").join("target").join("x86_64-unknown-linux-gnu").join("release");
+    let found_dir = root.join("work").join("found").join(p.id);
+    let per_target = (secs / targets.len() as u64).max(5);
+    let mut reports = vec![];
+    for (target, max_len) in targets {
+        let dir = base.join(target);
+        let (corpus, seeds, artifacts) = (dir.join("corpus"), dir.join("seeds"), dir.join("artifacts"));
+        for d in [&corpus, &seeds, &artifacts] {
+            let _ = std::fs::create_dir_all(d);
+        }
+        let n_seeds = fuzz_seed_inputs(p, target, seed, &seeds);
+        let found_before: std::collections::BTreeSet<PathBuf> = list_files(&found_dir).into_iter().collect();
+        let log = dir.join("fuzz.log");
+        let t0 = Instant::now();
+        use std::os::unix::process::CommandExt;
+        let child = Command::new(bin_dir.join(target))
+            .process_group(0)
+            .arg(&corpus)
+            .arg(&seeds)
+            .args([
+                format!("-max_total_time={per_target}"),
+                format!("-seed={}", (seed as u32).max(1)),
+                "-len_control=0".to_string(),
+                format!("-max_len={max_len}"),
+                format!("-fork={SHARDS}"),
+                // fork mode goes on past timeouts and out-of-memory inputs; they are counted, not judged
+                // (halting is C03's, with counting budgets)
+                "-timeout=30".to_string(),
+                "-rss_limit_mb=6000".to_string(),
+                format!("-artifact_prefix={}/", artifacts.display()),
+            ])
+            .env("VCHECK_FUZZ_PROP", p.id)
+            .env("VERIF_ROOT", &root)
+            .current_dir(&dir)
+            .stdin(Stdio::null())
+            .stdout(Stdio::null())
+            .stderr(std::fs::File::create(&log).map(Stdio::from).unwrap_or_else(|_| Stdio::null()))
+            .spawn();
+        // libFuzzer waits for its last jobs after the budget; a straggler is cut off (whole process group)
+        let mut cut_off = false;
+        let status = child.and_then(|mut c| loop {
+            match c.try_wait()? {
+                Some(s) => break Ok(s),
+                None if t0.elapsed().as_secs() > per_target + 90 => {
+                    cut_off = true;
+                    let _ = Command::new("kill").args(["-KILL", "--", &format!("-{}", c.id())]).status();
+                    break c.wait();
+                }
+                None => std::thread::sleep(Duration::from_millis(200)),
+            }
+        });
+        let wall = t0.elapsed().as_secs_f64();
+        let text = String::from_utf8_lossy(&std::fs::read(&log).unwrap_or_default()).to_string();
+        // "#123456: cov: 2437 ft: 8841 corp: 1213 exec/s 5242 oom/timeout/crash: 0/0/0 time: 61s job: 24 dft_time: 0"
+        let mut stats = (0u64, 0u64, 0u64, 0u64);
+        let mut slow = String::new();
+        for line in text.lines() {
+            if let Some(rest) = line.strip_prefix('#') {
+                let num = |key: &str| -> Option<u64> {
+                    let i = rest.find(key)? + key.len();
+                    rest[i..].trim_start().split(|c: char| !c.is_ascii_digit()).next()?.parse().ok()
+                };
+                if let (Some(execs), Some(cov), Some(ft), Some(corp)) = (
+                    rest.split(':').next().and_then(|s| s.trim().parse::<u64>().ok()),
+                    num("cov:"),
+                    num("ft:"),
+                    num("corp:"),
+                ) {
+                    stats = (execs, cov, ft, corp);
+                    if let Some(i) = rest.find("oom/timeout/crash:") {
+                        slow = rest[i + 18..].trim().split(' ').next().unwrap_or("").to_string();
+                    }
+                }
+            }
+        }
+        // ---- what it found ----------------------------------------------------------------------
+        let mut target_violations = 0usize;
+        let found_new: Vec<PathBuf> = list_files(&found_dir).into_iter().filter(|f| !found_before.contains(f)).collect();
+        for f in &found_new {
+            // re-check the saved case through the property's replay, outside the fuzzer
+            let out = Command::new(std::env::current_exe().expect("exe"))
+                .args(["replay", p.id])
+                .arg(f)
+                .stdin(Stdio::null())
+                .output();
+            let rf = std::fs::read_to_string(f).ok().and_then(|s| serde_json::from_str::<core::ReplayFile>(&s).ok());
+            match (out, rf) {
+                (Ok(o), Some(rf)) => {
+                    let confirmed = o.status.code() == Some(1) || (o.status.code().is_none() && p.id == "C01");
+                    if confirmed {
+                        if !st.violations.iter().any(|(v, _)| v.signature == rf.signature) {
+                            st.violations.push((Violation::new(rf.signature, rf.detail, rf.case), f.clone()));
+                            target_violations += 1;
+                        }
+                    } else if o.status.code() == Some(0) {
+                        st.notes.push(format!(
+                            "fuzz target {target} saved {} but the case passes (or is a known finding) in replay",
+                            f.display()
+                        ));
+                    } else {
+                        st.inconclusive.push(format!("replay of fuzz finding {} ended with {}", f.display(), o.status));
+                    }
+                }
+                _ => st.inconclusive.push(format!("cannot re-check fuzz finding {}", f.display())),
+            }
+        }
+        let arts = list_files(&artifacts);
+        let mut art_names = vec![];
+        for a in &arts {
+            let name = a.file_name().unwrap().to_string_lossy().to_string();
+            art_names.push(name.clone());
+            if name.starts_with("timeout-") || name.starts_with("oom-") || name.starts_with("slow-unit-") {
+                continue; // resource limits under instrumentation: counted in the report, never judged
+            }
+            if !found_new.is_empty() {
+                continue; // the crash is the abort after saving the finding
+            }
+            // a crash without a saved finding: run the input once more outside the fuzzer
+            let out = Command::new(std::env::current_exe().expect("exe"))
+                .args(["__fuzzone", target, p.id])
+                .arg(a)
+                .stdin(Stdio::null())
+                .stderr(Stdio::null())
+                .output();
+            match out {
+                Ok(o) if o.status.code() == Some(0) => {
+                    st.notes.push(format!("fuzz target {target}: crash input {name} passes outside the fuzzer"))
+                }
+                Ok(o) if o.status.code() == Some(1) => {
+                    let f = PathBuf::from(String::from_utf8_lossy(&o.stdout).trim().to_string());
+                    if let Some(rf) = std::fs::read_to_string(&f).ok().and_then(|s| serde_json::from_str::<core::ReplayFile>(&s).ok()) {
+                        st.violations.push((Violation::new(rf.signature, rf.detail, rf.case), f));
+                        target_violations += 1;
+                    }
+                }
+                Ok(o) if o.status.code().is_none() => {
+                    // killed by a signal: the analysing process died on this input
+                    let data = std::fs::read(a).unwrap_or_default();
+                    let v = Violation::new(
+                        format!("process died ({})", o.status),
+                        "the analysing process was killed (native stack overflow or abort) while running this fuzzer input",
+                        json!({ "fuzz_target": target, "fuzz_prop": p.id, "fuzz_input_hex": hex::encode(&data) }),
+                    );
+                    let path = save_found("C01", &v);
+                    if p.id == "C01" {
+                        st.violations.push((v, path));
+                        target_violations += 1;
+                    } else {
+                        st.crashes_owned_by_c01 += 1;
+                        st.notes.push(format!("process death attributed to C01; input saved to {}", path.display()));
+                    }
+                }
+                Ok(o) => st.inconclusive.push(format!("fuzz target {target}: crash input {name} fails inside the harness ({})", o.status)),
+                Err(e) => st.inconclusive.push(format!("fuzz target {target}: cannot re-run {name}: {e}")),
+            }
+        }
+        if cut_off {
+            st.notes.push(format!("fuzz target {target}: last jobs cut off {}s after the budget", 90));
+        } else if let Ok(s) = &status {
+            if !s.success() && found_new.is_empty() && arts.is_empty() {
+                st.inconclusive.push(format!("fuzz target {target} exited with {s} without an artifact (see {})", log.display()));
+            }
+        } else {
+            st.inconclusive.push(format!("fuzz target {target} could not be started"));
+        }
+        // ---- census of the final corpus (coverage-distinct inputs) through the same classifier ---
+        let census_out = dir.join("census.json");
+        let _ = Command::new(std::env::current_exe().expect("exe"))
+            .args(["__fuzzcensus", target, p.id])
+            .arg(&corpus)
+            .arg(&census_out)
+            .stdin(Stdio::null())
+            .stderr(Stdio::null())
+            .status();
+        let census: Option<Acc> = std::fs::read(&census_out).ok().and_then(|b| serde_json::from_slice(&b).ok());
+        let census_json = match &census {
+            Some(a) => json!({
+                "corpus_inputs_rerun": a.evaluations,
+                "distinct_cases": a.distinct.len(),
+                "distinct_nontrivial": a.nontrivial.len(),
+                "labels": a.labels,
+                "samples": a.samples,
+            }),
+            None => json!("census failed"),
+        };
+        reports.push(json!({
+            "target": target,
+            "engine": "libFuzzer (cargo-fuzz build, -fork)",
+            "seconds": (wall * 10.0).round() / 10.0,
+            "budget_s": per_target,
+            "seed_inputs": n_seeds,
+            "executions": stats.0,
+            "coverage_edges": stats.1,
+            "features": stats.2,
+            "corpus_units": stats.3,
+            "artifacts": art_names,
+            "oom_timeout_crash_jobs": slow,
+            "new_violations": target_violations,
+            "final_corpus_census": census_json,
+        }));
+        println!(
+            "{} fuzz {}: {} executions, cov {} edges, {} features, corpus {}, {} new violations, {:.0}s",
+            p.id, target, stats.0, stats.1, stats.2, stats.3, target_violations, wall
+        );
+        let _ = known;
+    }
+    st.report = Value::Array(reports);
+    st
 }
